@@ -9,7 +9,7 @@ type ScriptOpts struct {
 	MaxInstr    int  // 1..MaxInstr instructions
 	AllowReturn bool // OP_RETURN may appear as an opcode
 	NonMinimal  bool // non-minimal push forms and zero-length PUSHDATA1/2/4 may appear
-	Big         bool // rare pushes of 65535 / 65536 / 65537 bytes
+	Big         bool // rare (1 in 3000 pushes) pushes of 65535 / 65536 / 65537 bytes
 	OneByte     bool // one-byte direct pushes may appear
 }
 
@@ -64,7 +64,7 @@ func MinimalForm(n int) int {
 // Push draws one complete push instruction (prefix + data).
 func Push(t *rapid.T, o ScriptOpts) []byte {
 	var n int
-	k := rapid.IntRange(0, 499).Draw(t, "push_kind")
+	k := rapid.IntRange(0, 2999).Draw(t, "push_kind")
 	minLen := 2
 	if o.OneByte {
 		minLen = 1
@@ -72,9 +72,9 @@ func Push(t *rapid.T, o ScriptOpts) []byte {
 	switch {
 	case o.Big && k == 0:
 		n = rapid.SampledFrom([]int{65535, 65536, 65537}).Draw(t, "push_len")
-	case k < 150:
+	case k < 900:
 		n = rapid.SampledFrom([]int{minLen, 2, 3, 4, 5, 20, 32, 33, 65, 74, 75, 76, 77, 255, 256, 257}).Draw(t, "push_len")
-	case k < 200:
+	case k < 1200:
 		n = rapid.IntRange(70, 300).Draw(t, "push_len")
 	default:
 		n = rapid.IntRange(minLen, 40).Draw(t, "push_len")
